@@ -1,0 +1,52 @@
+//go:build verif
+
+package hwmon
+
+// Contracts for package hwmon, read by /verif/govc (comment-only file, compiled only with -tags verif).
+// How libsensors features become HwMonController values (GetChips, GetFans, GetTempSensors: cgo, Sscanf on
+// feature names) is outside the proof; the contracts below start from an arbitrary list of controllers.
+
+//@ ghost var reMatch gmap[string]gmap[string]bool
+//@ ghost var reBad gset[string]
+//@ extern func regexp.MatchString(pattern string, s string) (matched bool, err error)
+//@   effectfree
+//@   ensures (err != nil) == (pattern in reBad)
+//@   ensures err == nil ==> matched == reMatch[pattern][s]
+//@   ensures err != nil ==> !matched
+//@   trusted "regexp: whether a pattern compiles depends on the pattern only; matching is a function of pattern and subject"
+
+//@ pure ctlOK(cs []*HwMonController) bool = forall i int, j int :: 0 <= i && i < len(cs) ==> cs[i] != nil && (0 <= j && j < len(cs[i].Fans) ==> cs[i].Fans[j].Config.HwMon != nil)
+//@ pure fanSel(h *configuration.HwMonFanConfig, idx int, ch int) bool = (idx > 0 ==> h.Index == idx) && (ch > 0 ==> h.RpmChannel == ch)
+//@ pure hit(cs []*HwMonController, i int, j int, pat string, idx int, ch int) bool = reMatch[pat][cs[i].Platform] && fanSel(cs[i].Fans[j].Config.HwMon, idx, ch)
+
+//@ func setFanConfigPaths
+//@   props C17
+//@   requires config != nil
+//@   ensures[C17.paths] config.RpmInputPath == pathjoin(config.SysfsPath, "fan" + itoa(config.RpmChannel) + "_input") && config.PwmPath == pathjoin(config.SysfsPath, "pwm" + itoa(config.PwmChannel)) && config.PwmEnablePath == pathjoin(config.SysfsPath, "pwm" + itoa(config.PwmChannel) + "_enable")
+//@   modifies config.RpmInputPath, config.PwmPath, config.PwmEnablePath
+
+//@ func UpdateFanConfigFromHwMonControllers
+//@   props C17
+//@   let pat = "(?i)" + config.HwMon.Platform
+//@   let idx = config.HwMon.Index
+//@   let ch = config.HwMon.RpmChannel
+//@   let pwm = config.HwMon.PwmChannel
+//@   let h = config.HwMon
+//@   requires config != nil && config.HwMon != nil && ctlOK(controllers)
+//@   requires forall i int, j int :: 0 <= i && i < len(controllers) && 0 <= j && j < len(controllers[i].Fans) ==> controllers[i].Fans[j].Config.HwMon != config.HwMon
+//@   ensures[C17.bound] result == nil ==> exists i int, j int :: 0 <= i && i < len(controllers) && 0 <= j && j < len(controllers[i].Fans) && hit(controllers, i, j, pat, idx, ch) && h.SysfsPath == controllers[i].Fans[j].Config.HwMon.SysfsPath && h.Index == controllers[i].Fans[j].Config.HwMon.Index && h.RpmChannel == controllers[i].Fans[j].Config.HwMon.RpmChannel && h.PwmChannel == (pwm != 0 ? pwm : controllers[i].Fans[j].Config.HwMon.PwmChannel) && (forall i2 int, j2 int :: 0 <= i2 && i2 <= i && 0 <= j2 && j2 < len(controllers[i2].Fans) && (i2 < i || j2 < j) ==> !hit(controllers, i2, j2, pat, idx, ch))
+//@   ensures[C17.paths] result == nil ==> h.RpmInputPath == pathjoin(h.SysfsPath, "fan" + itoa(h.RpmChannel) + "_input") && h.PwmPath == pathjoin(h.SysfsPath, "pwm" + itoa(h.PwmChannel)) && h.PwmEnablePath == pathjoin(h.SysfsPath, "pwm" + itoa(h.PwmChannel) + "_enable")
+//@   ensures[C17.nomatch] result != nil && !(pat in reBad) ==> forall i int, j int :: 0 <= i && i < len(controllers) && 0 <= j && j < len(controllers[i].Fans) ==> !hit(controllers, i, j, pat, idx, ch)
+//@   ensures[C17.clean] result != nil ==> h.Index == idx && h.RpmChannel == ch && h.PwmChannel == pwm && h.SysfsPath == old(h.SysfsPath) && h.PwmPath == old(h.PwmPath) && h.RpmInputPath == old(h.RpmInputPath) && h.PwmEnablePath == old(h.PwmEnablePath)
+//@   ensures[C17.error] (pat in reBad) && len(controllers) > 0 ==> result != nil
+//@   modifies config.HwMon.Index, config.HwMon.RpmChannel, config.HwMon.SysfsPath, config.HwMon.PwmChannel, config.HwMon.RpmInputPath, config.HwMon.PwmPath, config.HwMon.PwmEnablePath
+//@   loop 1 "for _, controller := range controllers"
+//@     invariant config == old(config) && config.HwMon == h && h.Index == idx && h.RpmChannel == ch && h.PwmChannel == pwm && h.Platform == old(h.Platform) && h.SysfsPath == old(h.SysfsPath) && h.PwmPath == old(h.PwmPath) && h.RpmInputPath == old(h.RpmInputPath) && h.PwmEnablePath == old(h.PwmEnablePath)
+//@     invariant -1 <= rangeindex#1 && rangeindex#1 < len(controllers) + 1 && !(pat in reBad && rangeindex#1 >= 0)
+//@     invariant forall i int, j int :: 0 <= i && i <= rangeindex#1 && i < len(controllers) && 0 <= j && j < len(controllers[i].Fans) ==> !hit(controllers, i, j, pat, idx, ch)
+//@   loop 2 "for _, fan := range controller.Fans"
+//@     invariant config == old(config) && config.HwMon == h && h.Index == idx && h.RpmChannel == ch && h.PwmChannel == pwm && h.Platform == old(h.Platform) && h.SysfsPath == old(h.SysfsPath) && h.PwmPath == old(h.PwmPath) && h.RpmInputPath == old(h.RpmInputPath) && h.PwmEnablePath == old(h.PwmEnablePath)
+//@     invariant 0 <= rangeindex#1 && rangeindex#1 < len(controllers) && controller == controllers[rangeindex#1] && !(pat in reBad) && reMatch[pat][controller.Platform]
+//@     invariant -1 <= rangeindex#2 && rangeindex#2 < len(controller.Fans) + 1
+//@     invariant forall i int, j int :: 0 <= i && i < rangeindex#1 && 0 <= j && j < len(controllers[i].Fans) ==> !hit(controllers, i, j, pat, idx, ch)
+//@     invariant forall j int :: 0 <= j && j <= rangeindex#2 && j < len(controller.Fans) ==> !fanSel(controller.Fans[j].Config.HwMon, idx, ch)
